@@ -50,7 +50,11 @@ def amount_of(rng, holding: Decimal, cls: str, dec=18) -> Decimal:
         a = -(holding * Decimal(rng.randint(1, 60)) / 100) - Decimal(1).scaleb(-dec)
     else:
         raise ValueError(cls)
-    return q(a, dec)
+    a = q(a, dec)
+    if cls in ("typical", "small") and rng.random() < 0.15:
+        # the operations are declared as taking "Decimal | float": hand the same number over as a float (or as an int)
+        return int(a) if a == a.to_integral_value() and rng.random() < 0.5 else float(a)
+    return a
 
 
 def bal(broker, tok):
@@ -511,10 +515,16 @@ class BrokerKit:
         toks = [t for t in self.tokens if t in broker.assets]
         a, b = rng.sample(toks, 2) if len(toks) >= 2 else (toks[0], toks[0])
         amt = amount_of(rng, bal(broker, a), cls, a.decimal)
+        if rng.random() < 0.25:
+            amt = float(amt)  # the signatures say Decimal | float
+            cls += "/float"
         which = rng.choice(["swap_by_from", "swap_by_to", "subtract_from_balance"])
         if which == "swap_by_from":
             return Op(self.mtype, which, cls, lambda: broker.swap_by_from(a, b, amt, prices), kind="swap")
         if which == "swap_by_to":
-            want = amt * prices[a.name] / prices[b.name] if prices[b.name] else amt
-            return Op(self.mtype, which, cls, lambda: broker.swap_by_to(a, b, q(want, b.decimal), prices), kind="swap")
+            want = Decimal(amt) * prices[a.name] / prices[b.name] if prices[b.name] else Decimal(amt)
+            want = q(want, b.decimal)
+            if isinstance(amt, float):
+                want = float(want)
+            return Op(self.mtype, which, cls, lambda: broker.swap_by_to(a, b, want, prices), kind="swap")
         return Op(self.mtype, which, cls, lambda: broker.subtract_from_balance(a, amt), kind="burn")
